@@ -483,6 +483,15 @@ func init() {
 	Registry["C14"] = Prop{"model_checking", C14}
 	Sub["c14-race"] = C14Race
 	replayers["C14"] = func(raw json.RawMessage) string {
+		var probe struct {
+			Kind string `json:"kind"`
+		}
+		json.Unmarshal(raw, &probe)
+		if probe.Kind == "cli" {
+			var cr c14cliReplay
+			json.Unmarshal(raw, &cr)
+			return c14cliReplayRun(cr)
+		}
 		var r c14Replay
 		json.Unmarshal(raw, &r)
 		if len(r.Scenario.Threads) == 0 {
